@@ -8,7 +8,8 @@ from .common import get_type
 META = {
     "rule": "One partition per attribute type, v symbolic over the whole word: masks of the live table pairwise "
             "disjoint and covering (concrete facts asserted in the same run), every accessor against the arithmetic "
-            "definition, and the real pretty_attrs rows compared character by character (branch-free).",
+            "definition, and the real pretty_attrs rows compared character by character (branch-free); a second partition per type does "
+            "the same for the numbers 0..3 after the same number was rendered as another attribute type in the same path.",
     "bounds": {"quick": "all TPMA_* types, all 2^8 / 2^32 values", "thorough": "same (already complete)"},
     "outside": "column layout of a row (C14); attribute words as list elements (C14)",
     "wall_budget_s": {"quick": 250, "thorough": 600},
@@ -77,6 +78,13 @@ def attr_word(cfg, v):
     T = get_type(cfg["type"])
     w = T._int_size
     nbits = 8 * w
+    if cfg.get("other"):
+        # the same number is first rendered as another attribute type: the result for T must not
+        # depend on what was rendered before (value-keyed caches compare typed integers by number only)
+        U = get_type(cfg["other"])
+        y = U(v % 2 ** (8 * U._int_size))
+        y.attributes()
+        bit_rows(U, y)
     x = T(v)
     attrs = x.attributes()
     masks = [(a._name, a._value) for a in attrs]
@@ -107,8 +115,15 @@ def attr_word(cfg, v):
 
 def partitions(tier, seed):
     parts = []
-    for k, d in sorted(sp.L()["types"].items()):
-        if d["kind"] == "prim" and d.get("bits"):
-            parts.append({"id": "C17/%s" % sp.short(k), "prop": "harness.c17:attr_word", "cfg": {"type": k},
+    keys = [k for k, d in sorted(sp.L()["types"].items()) if d["kind"] == "prim" and d.get("bits")]
+    for i, k in enumerate(keys):
+        d = sp.L()["types"][k]
+        if True:
+            # history: the same (small) number rendered as the neighbouring attribute type first, in the same path
+            parts.append({"id": "C17/%s/after-another-type" % sp.short(k), "prop": "harness.c17:attr_word",
+                          "cfg": {"type": k, "other": keys[(i + 1) % len(keys)]},
+                          "sym": [["v", "int", 0, 4]], "budget_s": 100, "path_timeout_s": 60})
+            parts.append({"id": "C17/%s" % sp.short(k), "prop": "harness.c17:attr_word",
+                          "cfg": {"type": k},
                           "sym": [["v", "int", 0, 2 ** (8 * d["width"])]], "budget_s": 200, "path_timeout_s": 60})
     return parts
